@@ -457,3 +457,27 @@ Proof.
     pose proof (Nat.mul_le_mono_l _ _ K (reductions_le col e Hwf)). lia.
   - apply pstates_mono. exact Hall.
 Qed.
+
+(* ---- cancel branch of ToLeafNode ---- *)
+Lemma cancel_preserves_evaluated_lemma : forall stack root cache i v,
+  cache root = None -> cache i = Some v -> cancel_branch true stack root cache i = Some v.
+Proof.
+  intros stack root cache i v Hr Hi. unfold cancel_branch.
+  destruct (Nat.eqb i root) eqn:E; [apply Nat.eqb_eq in E; subst; congruence|].
+  destruct (mem i stack); rewrite Hi; reflexivity.
+Qed.
+
+Lemma cancel_poisons_unevaluated_lemma : forall g stack root cache i,
+  (i = root \/ In i stack) -> cache i = None -> cancel_branch g stack root cache i = Some VCancelled.
+Proof.
+  intros g stack root cache i H Hi. unfold cancel_branch.
+  destruct (Nat.eqb i root) eqn:E; [reflexivity|].
+  destruct H as [H|H]; [subst; rewrite Nat.eqb_refl in E; discriminate|].
+  assert (M : mem i stack = true) by (unfold mem; apply existsb_exists; exists i; split; [auto | apply Nat.eqb_refl]).
+  rewrite M, Hi. destruct g; reflexivity.
+Qed.
+
+Lemma cancel_unguarded_overwrites_lemma :
+  exists stack root cache i r, cache root = None /\ cache i = Some (VRes r) /\
+    cancel_branch false stack root cache i = Some VCancelled.
+Proof. exists [0; 1], 0, (fun i => if Nat.eqb i 1 then Some (VRes 7) else None), 1, 7. repeat split. Qed.
